@@ -383,8 +383,9 @@ func run1(t *testing.T, c Case) (res Result) {
 				if held && time.Since(at) > ttl+2*time.Second {
 					r.viol("C08/primary-beyond-ttl", "t=%s: IsPrimary() although the last successful acquire/renew was %s ago (TTL %s)", now, time.Since(at), ttl)
 				}
-				if sid, nid := svc.ClusterIDValue(), N.Store.ClusterID(); c.Cfg.ServiceID != "" && c.Cfg.StoredID != "" && sid != nid {
-					r.viol("C08/primary-foreign-cluster", "t=%s: IsPrimary() with stored cluster ID %s while the service holds %s", now, nid, sid)
+				if sid, nid := svc.ClusterIDValue(), N.Store.ClusterID(); sid != "" && sid != nid {
+					// also for a node that has no ID stored: it may adopt one as a replica, never lead a cluster it does not belong to
+					r.viol("C08/primary-foreign-cluster", "t=%s: IsPrimary() with stored cluster ID %q while the service holds %s", now, nid, sid)
 				}
 				if !c.Cfg.Candidate && !handedToN(svc) {
 					r.viol("C08/non-candidate-primary", "t=%s: a non-candidate node is primary without having been handed a lease", now)
